@@ -60,6 +60,9 @@ pub struct Player {
     pub skip_obs: bool,
     /// first answer seen for (kind, object, position): a finalised or pending object never changes while it stays where it is
     pub memo: BTreeMap<String, String>,
+    /// mainnet below 929 000: signing hash -> first signer that used it; `sigdup` once two signers shared one
+    pub sig_seen: BTreeMap<B256, String>,
+    pub sigdup: bool,
     pub cell_order: Vec<String>,
     pub u_probe_addr: BTreeSet<String>,
     pub digest_on: bool,
@@ -137,6 +140,8 @@ impl Player {
             light_obs: false,
             skip_obs: false,
             memo: BTreeMap::new(),
+            sig_seen: BTreeMap::new(),
+            sigdup: false,
             cell_order: Vec::new(),
             u_probe_addr: BTreeSet::new(),
             digest_on: false,
@@ -401,6 +406,7 @@ impl Player {
     fn gas_len(step: &Value) -> u64 {
         match &step["gas"] {
             Value::String(s) if s == "tiny" => 1,
+            Value::String(s) if s == "max" => u64::MAX,
             Value::Number(n) => n.as_u64().unwrap_or(100_000),
             _ => 1_000_000,
         }
@@ -534,6 +540,9 @@ impl Player {
         if !self.skip_obs {
             let obs = self.obs();
             ev["obs"] = obs;
+        }
+        if self.sigdup {
+            ev["sigdup"] = json!(true);
         }
         ev
     }
@@ -731,6 +740,16 @@ impl Player {
             let next = if h == 0 && !self.inst.call("eth_getBlockByNumber", json!(["0", false])).is_ok() { 0 } else { h + 1 };
             next < 929_000
         };
+        if sig_regime && chain != "garbage" {
+            // the signing hash does not cover the signature: two signers sending the same (nonce, target, data) share it
+            match self.sig_seen.get(&sighash) {
+                Some(first) if *first != signer_name => self.sigdup = true,
+                Some(_) => {}
+                None => {
+                    self.sig_seen.insert(sighash, signer_name.clone());
+                }
+            }
+        }
         let id = self.names.tx_token(&if sig_regime && chain != "garbage" { sighash } else { keccak256(&raw) });
         self.u_tx.insert(id.clone());
         self.u_addr.insert(signer_name);
@@ -869,6 +888,7 @@ impl Player {
             flag!("blk_count", c1 == Some(ids.len() as u64) && c2 == c1, "tx count of block {}: {:?}/{:?} vs {}", h, c1, c2, ids.len());
             // receipts: cumulative gas, log indexes, bloom, root
             let mut cum = 0u64;
+            let mut cum_overflowed = false;
             let mut li = 0u64;
             let mut bloom = Bloom::default();
             let mut ok_cum = true;
@@ -876,8 +896,21 @@ impl Player {
             let mut ok_link = true;
             for (i, x) in hashes.iter().enumerate() {
                 let rc = self.get("eth_getTransactionReceipt", json!([hexs(x.as_slice())])).ok().cloned().unwrap_or(Value::Null);
-                cum = cum.wrapping_add(u64_of(&rc["gasUsed"]).unwrap_or(0));
-                ok_cum &= u64_of(&rc["cumulativeGasUsed"]) == Some(cum);
+                // running sum; where the sum does not fit 64 bits no figure is right: then the receipts only have to stay
+                // monotone and (below) end at the block's own total
+                let before = cum;
+                match cum.checked_add(u64_of(&rc["gasUsed"]).unwrap_or(0)) {
+                    Some(x) if !cum_overflowed => {
+                        cum = x;
+                        ok_cum &= u64_of(&rc["cumulativeGasUsed"]) == Some(cum);
+                    }
+                    _ => {
+                        cum_overflowed = true;
+                        let c = u64_of(&rc["cumulativeGasUsed"]).unwrap_or(0);
+                        ok_cum &= c >= before;
+                        cum = c;
+                    }
+                }
                 ok_link &= rc["blockHash"] == b["hash"] && u64_of(&rc["blockNumber"]) == Some(h) && u64_of(&rc["transactionIndex"]) == Some(i as u64);
                 let mut rbloom = Bloom::default();
                 for l in rc["logs"].as_array().cloned().unwrap_or_default() {
